@@ -80,7 +80,7 @@ def specs(tier, seed):
 # ---- behavioural ("in vivo") part: the candidate lists as the real simulators drive them -------------
 INVIVO_SYMPTOMS = ("clock_rate", "probability", "extra_event", "missing_event", "zero_rate_event", "stale_rate",
                    "livelock", "event_after_end", "exception")
-INVIVO_PROGRAMS = ("SIS", "decay", "tinydecay", "SIR_int0", "thr1", "twoway")
+INVIVO_PROGRAMS = ("SIS", "pressure", "decay", "tinydecay", "SIR_int0", "thr1", "twoway")
 
 
 def invivo_specs(tier):
